@@ -539,8 +539,7 @@ class HTMLBinaryInputStream(HTMLUnicodeInputStream):
         encoding otherwise return None"""
         bomDict = {
             codecs.BOM_UTF8: 'utf-8',
-            codecs.BOM_UTF16_LE: 'utf-16le', codecs.BOM_UTF16_BE: 'utf-16be',
-            codecs.BOM_UTF32_LE: 'utf-32le', codecs.BOM_UTF32_BE: 'utf-32be'
+            codecs.BOM_UTF16_LE: 'utf-16le', codecs.BOM_UTF16_BE: 'utf-16be'
         }
 
         # Go to beginning of file and read in 4 bytes
@@ -551,12 +550,10 @@ class HTMLBinaryInputStream(HTMLUnicodeInputStream):
         encoding = bomDict.get(string[:3])         # UTF-8
         seek = 3
         if not encoding:
-            # Need to detect UTF-32 before UTF-16
-            encoding = bomDict.get(string)         # UTF-32
-            seek = 4
-            if not encoding:
-                encoding = bomDict.get(string[:2])  # UTF-16
-                seek = 2
+            # FF FE 00 00 is a UTF-16LE BOM followed by U+0000: there is no
+            # UTF-32 in the Encoding Standard
+            encoding = bomDict.get(string[:2])  # UTF-16
+            seek = 2
 
         # Set the read position past the BOM if one was found, otherwise
         # set it to the start of the stream
